@@ -257,6 +257,20 @@ def run(ctx: Ctx):
                            f"AvpDecodeError: one malformed optional (e.g. Grouped) AVP makes "
                            f"Message.from_bytes raise, the reader discards the frame as garbage and a "
                            f"request that carries every required AVP is neither delivered nor answered")
+    # "is this required AVP missing" depends on this message alone: the validation helper and the
+    # attribute fallback of the typed classes keep nothing between calls
+    from .common_codec import no_hidden_state
+    dm_ = model.cls("message._base", "DefinedMessage")
+    hs = [f_ for f_ in (model.func("node._helpers", "validate_message_avps"),
+                        dm_.methods.get("__getattr__")) if f_ is not None]
+    no_hidden_state(ctx, "C08-R2c", hs, set())
+    # the peer a request is attributed to is the configured peer, whatever the case of the
+    # Origin-Host in its CER
+    from . import c06 as _c06
+    ctx.include(_c06.run, {"C06-R3"}, "C08-R9",
+                "receive_cer finds and records the configured peer under the case-normalised "
+                "Origin-Host (the identity the application routes are keyed by)", floor=1,
+                constructs=lambda c: c.endswith("#case"))
     from .common_node import identity_semantics
     identity_semantics(ctx, "C08-R7")
     from . import c20
